@@ -397,6 +397,16 @@ def judgeOp (env : Env) (parts : List String) (resp : String) : Verdict :=
   | ["acct.sign", key, digest] => match unhex key, unhex digest with
     | some key, some digest => judgeSign key digest resp
     | _, _ => .skip
+  | ["sig.v", par, chain] =>
+    -- EIP-155 as arithmetic on integers: v = 35 + 2c + yParity (27 + yParity without chain id); when that does not fit
+    -- 256 bits the statement wants an ordinary error (a wrapped v names another chain)
+    match par.toNat?, (if chain == "none" then some none else (unhex chain).map (fun b => some (beVal b))) with
+    | some par, some c =>
+      let v := match c with | some c => 35 + 2 * c + par | none => 27 + par
+      if par > 1 then .skip
+      else if v < 2 ^ 256 then expect (resp == "ok " ++ nat256hex v) "v must be 35 + 2·chainId + yParity (27 + yParity without chain id) exactly, as an integer"
+      else expect (resp == "err" || resp == "panic") "35 + 2·chainId + yParity does not fit 256 bits: no v may be produced"
+    | _, _ => .skip
   | ["mn.seed", ph, pw] => match utf8Arg ph, utf8Arg pw with
     | some ph, some pw => judgeSeed env.nfkd ph pw resp
     | _, _ => .skip
@@ -508,6 +518,46 @@ def judgeCli (env : Env) (parts : List String) (resp : String) : Judge.Verdict :
       let isHex := t.startsWith "0x" && ((t.drop 2).toString.all fun c => c.isDigit || ('a' ≤ c && c ≤ 'f') || ('A' ≤ c && c ≤ 'F'))
       Judge.expect (resp == (if isHex then "ok" else "err")) "a vanity prefix is accepted iff it is 0x followed by hexadecimal digits (either case, even or odd count)"
     | none => .skip
+  | ["cli.new_vanity", len, pre, pw, sel, stream] =>
+    -- single-threaded search over a known entropy stream (C12 + C18 as statements): the printed phrase is the BIP-39
+    -- sentence (reference list, SHA-256 checksum) of the first request whose selected account's address starts with
+    -- the prefix digits; a failing request before that is an error; nothing else may be printed
+    match utf8Arg len, utf8Arg pre, utf8Arg pw, selArg sel, streamArg stream with
+    | some len, some pre, some pw, some sel, some st =>
+      let t := String.ofList pre
+      let digits := (t.drop 2).toString.toLower
+      let isHex := t.startsWith "0x" && digits.all fun c => c.isDigit || ('a' ≤ c && c ≤ 'f')
+      match (String.ofList len).toNat? with
+      | none => .skip
+      | some n =>
+        if !(n == 12 || n == 15 || n == 18 || n == 21 || n == 24) || !isHex then .skip else
+        match Cli.selectedPath sel with
+        | .ok _ =>
+          let need := n * 4 / 3
+          let rec walk : List (Option Bytes) → Option String
+            | [] => some "err"
+            | none :: _ => some "err"
+            | some b :: rest =>
+              if b.length < need then some "err" else
+              let ent := b.take need
+              let words := (Spec.Bip39.indices Prim.sha256 ent).map fun i => Judge.referenceTable.getD i []
+              let phrase : Str := (String.intercalate " " (words.map String.ofList)).toList
+              match Cli.privateKey X ⟨phrase, pw, sel⟩ with
+              | .ok d =>
+                match Prim.Secp.mulG d with
+                | some (x, y) =>
+                  let addr := (Prim.keccak256 (beFixed 32 x ++ beFixed 32 y)).drop 12
+                  let addrHex := String.join (addr.map fun b => Judge.lowerHexFixed b.toNat 2)
+                  if addrHex.startsWith digits then some ("ok " ++ hx (Utf8.encode (phrase ++ ['\n'])))
+                  else walk rest
+                | none => none
+              | _ => none
+          match walk st with
+          | some want => Judge.expect (resp == want)
+              "the search must print exactly the BIP-39 sentence of the first entropy request whose account address starts with the prefix (valid checksum, L words), or fail when the source fails first"
+          | none => .skip
+        | _ => .skip
+    | _, _, _, _, _ => .skip
   | ["cli.new", len, stream] =>
     match utf8Arg len, streamArg stream with
     | some len, some st =>
